@@ -120,7 +120,7 @@ class FaultFS:
         self.snaps = []        # after each write-side event: (target, tmp, listing)
         self.reads = []
         self.n = 0
-        self.fault = fault     # {'idx': k, 'part': fraction}
+        self.fault = fault     # {'idx': k, 'part': fraction, 'sticky': bool}
         self.fired = False
 
     # -- helpers
@@ -166,11 +166,16 @@ class FaultFS:
         self.log.append(ev)
         try:
             if self.fault is not None and self.fault['idx'] == k and not self.fired:
-                self.fired = True
+                self.fired = ev[0]
                 if partial is not None:
                     partial(ev)
                 ev.append('FAULT')
                 raise Injected(5, 'injected I/O error')
+            if self.fired == 'write' and ev[0] == 'write' and self.fault.get('sticky'):
+                # the disk is full: a write failed, and so does every later one (nothing of it reaches the file)
+                ev[2] = ''
+                ev.append('FAULT')
+                raise Injected(28, 'injected: no space left on device')
             return action()
         finally:
             self.snaps.append(self.state())
@@ -605,11 +610,12 @@ def run_impl(spec, case, trials=True, crash_budget=None, rng=None):
                     else:
                         m.saveParameters()
                 for k in range(nops):
-                    for part in ((0, 0.5) if rec['evs'][k][0] == 'write' else (0,)):
+                    # a write fails having written nothing / half of it / half of it and so does every later write (disk full)
+                    for part, sticky in (((0, False), (0.5, False), (0.5, True)) if rec['evs'][k][0] == 'write' else ((0, False),)):
                         fs.set_state(pre[0], pre[1])
                         m.persistentData = believed
                         m.paramCallbacks = {n: list(cbs) for n, cbs in callbacks.items()}
-                        fs.reset({'idx': k, 'part': part})
+                        fs.reset({'idx': k, 'part': part, 'sticky': sticky})
                         e1 = None
                         try:
                             trigger(True)
@@ -623,7 +629,7 @@ def run_impl(spec, case, trials=True, crash_budget=None, rng=None):
                         except Exception as e:  # pylint: disable=broad-except
                             e2 = type(e).__name__
                         t2 = step_record(bench, m, e2)
-                        out['trials'].append({'step': len(out['steps']) - 1, 'k': k, 'part': part, 'pre': pre, 'via': via,
+                        out['trials'].append({'step': len(out['steps']) - 1, 'k': k, 'part': part, 'sticky': sticky, 'pre': pre, 'via': via,
                                               'first': t1, 'second': t2, 'data': rec['data']})
                 fs.set_state(post[0], post[1])
                 m.persistentData = post_believed
@@ -838,7 +844,7 @@ def gen_case(rng, spec, big):
         acts.append(act)
     case = {'acts': acts, 'file': None, 'stale': None, 'fault': None, 'buf': rng.choice(BUFFERINGS)}
     if rng.random() < 0.15:
-        case['fault'] = {'idx': rng.randint(0, 12), 'part': rng.choice([0, 0.5])}
+        case['fault'] = {'idx': rng.randint(0, 12), 'part': rng.choice([0, 0.5]), 'sticky': rng.random() < 0.3}
     if rng.random() < 0.25:
         case['stale'] = rng.choice([b'', b'{\n  "p0": 1', b'\xff\xfe garbage']).hex()
     return case
@@ -860,7 +866,8 @@ def place_faults(rng, spec, case):
         out.append(act)
         n = len(dry[i + 1]['evs']) if i + 1 < len(dry) else 0
         if n and rng.random() < 0.35:
-            act['fault'] = {'idx': rng.choice([0, 1, n - 4, n - 3, n - 2, n - 1, rng.randrange(n)]) % n, 'part': rng.choice([0, 0.5, 1])}
+            act['fault'] = {'idx': rng.choice([0, 1, n - 4, n - 3, n - 2, n - 1, rng.randrange(n)]) % n, 'part': rng.choice([0, 0.5, 1]),
+                            'sticky': rng.random() < 0.3}
             if act['a'] == 'set' and rng.random() < 0.7:
                 p = next(x for x in spec['params'] if x['name'] == act['name'])
                 for _ in range(rng.randint(1, 3)):
@@ -881,11 +888,12 @@ def model_request(spec, case, ref, impl, tables):
         for k, e in enumerate(rec['evs']):
             if e[-1] == 'FAULT' and e[0] == 'write':
                 part = e[2]
-                # what the file object still wrote when it was closed on the way out (an input of the model, like `part`)
+                # what the file object still wrote (or tried to) when it was closed on the way out: an input of the model, like `part`
                 for e2 in rec['evs'][k + 1:]:
                     if e2[0] != 'write':
                         break
-                    after.append(e2[2])
+                    after.append([e2[2], e2[-1] == 'FAULT'])
+                break
         return {'idx': f['idx'], 'part': part, 'after': after}
     given = {p['name']: p['name'] in spec['cfg'] for p in spec['params']}
     userwrite = {p['name']: p['write'] for p in spec['params']}
@@ -1116,7 +1124,8 @@ def check_case(ctx, res, spec, case, quick_crash=3, kind='history'):
                      'fin': hexo(t['second']['target']), 'ops2': len(t['second']['evs'])})
         tags.append(('retry', ('trial', j)))
         res.traces += 2
-        res.count('fault.at.' + t['first']['evs'][t['k']][0] if t['k'] < len(t['first']['evs']) else 'fault.unreached')
+        res.count('fault.at.' + t['first']['evs'][t['k']][0] + ('.disk-full' if t.get('sticky') else '')
+                  if t['k'] < len(t['first']['evs']) else 'fault.unreached')
     # ---- "a save that failed is attempted again by the next save" along the history itself: after a step in which a save hit the
     # injected fault and did not get the snapshot onto the disk, the next step that is a save by the documented triggers
     # (saveParameters(), or an update of an `auto` parameter, undisturbed, no write pending) must work again
